@@ -6,7 +6,7 @@ import random
 import implobs as O
 import vlib
 
-FILES = ["Link/LinkWire.v", "Props/C01.v"]
+FILES = ["Link/LinkWire.v", "Link/LinkDict.v", "Props/C01.v"]
 
 PRE = ("From DV Require Import Prelude.Base Model.Wire Model.Types Model.Obs Gen.GenDict Gen.GenConst.\n"
        "From Coq Require Import String.\n")
